@@ -35,6 +35,47 @@ def trio_sleep(I, args, kwargs):
     return Coro(thunk, "trio.sleep")
 
 
+def trio_current_time(I, args, kwargs):
+    """trio.current_time() (assumed): the reading of the run's clock - the ghost clock the sleeps advance, offset by an unknown start"""
+    ctx = I.ctx
+    t0 = ctx.ghost.get("clock_origin")
+    if t0 is None:
+        t0 = ctx.ghost["clock_origin"] = fresh("clock_origin", z3.RealSort())
+    now = ctx.ghost.get("now", z3.RealVal(0))
+    return SV(Z.mk_flt(t0 + now), TNum(only="float"))
+
+
+def trio_sleep_until(I, args, kwargs):
+    """trio.sleep_until(deadline) (assumed): sleeps for max(0, deadline - now) of the run's clock - recorded as that `sleep` event - or raises
+    trio.Cancelled"""
+    d = args[0]
+
+    def thunk():
+        ctx = I.ctx
+        t0 = ctx.ghost.get("clock_origin")
+        if t0 is None:
+            t0 = ctx.ghost["clock_origin"] = fresh("clock_origin", z3.RealSort())
+        now = ctx.ghost.get("now", z3.RealVal(0))
+        dl = Z.rval(I.num_operand(d).t)
+        dur = z3.If(dl - (t0 + now) > 0, dl - (t0 + now), z3.RealVal(0))
+        return trio_sleep(I, [SV(Z.mk_flt(dur), TNum(only="float"))], {}).thunk()
+
+    return Coro(thunk, "trio.sleep_until")
+
+
+def math_ceil_floor(which):
+    def f(I, args, kwargs):
+        """math.ceil / math.floor of a finite number: the integer above / below (over reals)"""
+        x = I.num_operand(args[0])
+        if not I.ctx.branch(Z.is_finite(x.t), "math.%s-finite" % which):
+            raise PyRaise(I.make_exception(ExternalRef("OverflowError" if True else "ValueError"), ["cannot convert float infinity/NaN to integer"]))
+        r = Z.rval(x.t)
+        fl = z3.ToReal(z3.ToInt(r))
+        val = fl if which == "floor" else z3.If(fl == r, fl, fl + 1)
+        return SV(Z.intv_r(val), TNum(only="int"))
+    return f
+
+
 fmt_names = z3.Function("fmt_names", z3.StringSort(), z3.StringSort(), z3.BoolSort())
 logger_of = z3.Function("logger_of", z3.StringSort(), z3.IntSort())
 
@@ -428,6 +469,40 @@ def inspect_unwrap(I, args, kwargs):
     return SV(t, f.ty)
 
 
+def statistics_mean(I, args, kwargs):
+    """statistics.fmean(xs) / statistics.mean(xs) (assumed, over reals): sum(xs) / len(xs); StatisticsError when xs is empty.
+    Only for a generator / sequence whose sum the engine can form (a pure element expression over a heap sequence)"""
+    from . import loops as L
+    import ast as _ast
+
+    ctx = I.ctx
+    it = args[0]
+    if kwargs or len(args) != 1:
+        raise Unsupported("statistics.mean with weights / several arguments")
+    if isinstance(it, L.GenExpT()):
+        gen, fr, seq = L._single_gen(I, it)
+        if gen.ifs:
+            raise Unsupported("statistics.mean over a filtered generator")
+        conc = None
+    else:
+        conc = I.try_concrete_iter(it)
+        seq = ctx.from_val(it) if isinstance(it, SV) else it
+    if conc is not None:
+        if not conc:
+            raise PyRaise(I.make_exception(ExternalRef("statistics.StatisticsError"), ["mean requires at least one data point"]))
+        total = 0
+        for x in conc:
+            total = I.binop(_ast.Add(), total, x)
+        return I.binop(_ast.Div(), total, len(conc))
+    if not isinstance(it, L.GenExpT()):
+        raise Unsupported("statistics.mean over %r" % (it,))
+    n = I.B.seq_len(I, seq)
+    if ctx.branch(n == 0, "mean-of-nothing"):
+        raise PyRaise(I.make_exception(ExternalRef("statistics.StatisticsError"), ["mean requires at least one data point"]))
+    total = L.symbolic_sum(I, it, 0)
+    return I.binop(_ast.Div(), total, SV(Z.mk_int(n), TNum(only="int")))
+
+
 def os_path_splitext(I, args, kwargs):
     """os.path.splitext(p) (assumed): (root, ext) with root + ext == p; ext is empty or starts with '.'"""
     ctx = I.ctx
@@ -460,5 +535,6 @@ def install(E):
                         "threading.Thread": threading_thread, "asyncio.run_coroutine_threadsafe": run_coroutine_threadsafe, "trio.from_thread.run": trio_from_thread_run,
                         "asyncio.current_task": asyncio_current_task, "trio.sleep": trio_sleep, "str.__mod__": str_mod, "logging.getLogger": get_logger,
                         "threading.Semaphore": threading_semaphore, "threading.BoundedSemaphore": threading_semaphore, "threading.RLock": threading_semaphore,
-                        "math.isclose": math_isclose, "itertools.chain": itertools_chain, "inspect.unwrap": inspect_unwrap, "os.path.splitext": os_path_splitext,
+                        "math.isclose": math_isclose, "itertools.chain": itertools_chain, "inspect.unwrap": inspect_unwrap, "os.path.splitext": os_path_splitext, "trio.current_time": trio_current_time, "trio.sleep_until": trio_sleep_until,
+                        "math.ceil": math_ceil_floor("ceil"), "math.floor": math_ceil_floor("floor"), "statistics.fmean": statistics_mean, "statistics.mean": statistics_mean,
                         "asyncio.run": asyncio_run, "asyncio.shield": asyncio_shield, "asyncio.gather": asyncio_gather})
